@@ -22,7 +22,7 @@ def run(pid, tier, replay=None):
     res = tlc(os.path.join(SPECDIR, "Utf8MC.tla"), cfg, sc, timeout=1200, heap="8g", capture_prefix="2222222", stdout_path=out)
     tlc_must_pass(res, "Utf8MC L=%d" % L)
     ck.add_tlc(res, "string_enumeration_and_roundtrip_design")
-    exe = vlib.cc_build(sc.path("utf_h"), [os.path.join(vlib.HARNESS, "utf_h.c")] + vlib.repo_src("utf.c", "a.c"), sc)
+    exe = vlib.cc_build(sc.path("utf_h"), [os.path.join(vlib.HARNESS, "utf_h.c")] + vlib.repo_src("utf.c", "str.c", "a.c"), sc)
     r = vlib.run_harness([exe, out, sc.path("g"), "14", str(ck.seed), "4099" if q else "1"], timeout=3000)
     m = re.search(r"^SUMMARY (\{.*\})$", r.stdout or "", re.M)
     mc = re.search(r"^CRASH (\{.*\})$", r.stdout or "", re.M)
